@@ -1,8 +1,10 @@
 (* C17 — simpleTAL executes templates according to TAL/TALES semantics; compiled programs
    are structurally well formed.  Property theorems only. *)
 From Coq Require Import String.
-From Coq Require Import Sorted.
-From PG Require Import Lib.Str Model.TALES Proofs.TALESFacts Model.TALProg Model.TALProgSpec Proofs.TALProgFacts.
+From Coq Require Import Sorted Permutation.
+From PG Require Import Lib.Str Model.TALES Proofs.TALESFacts Model.TALProg Model.TALProgSpec Proofs.TALProgFacts
+                       Model.TALCompile Proofs.TALCompileFacts Model.TALESEval Proofs.TALESEvalFacts
+                       Model.TALVM Model.TALOut Proofs.TALOutFacts.
 Local Open Scope N_scope.
 
 (* ---- compiled programs are structurally well formed ----
@@ -83,3 +85,98 @@ Example C17_tales_example :
   rv_letter 27 = lit "bb"%string /\ rv_Roman 1986 = lit "MCMLXXXVII"%string /\ rv_roman 4000 = lit " "%string /\
   rv_end 2 3 = 1 /\ rv_end 0 0 = 0.
 Proof. vm_compute. repeat split; reflexivity. Qed.
+
+(* ---- the compiler model (Model/TALCompile.v; tied to the real compiler by Corr/K17.chk_compile on the
+        recorded html.parser events of every generated template) ---- *)
+
+(* parseStartTag orders the statements of an element by sorting the opcodes it found: the order
+   emitted is sorted and is a permutation of what was written, whatever the order in the source *)
+Theorem C17_priority_sort :
+  forall l : list nat, LocallySorted le (sort_nat l) /\ Permutation l (sort_nat l).
+Proof. exact TALCompileFacts.sort_nat_spec. Qed.
+Print Assumptions C17_priority_sort.
+
+(* the repaired argument parser recognises the `text` keyword of tal:content / tal:replace *)
+Theorem C17_text_keyword :
+  forall (repl : bool) (e : str) (sym : nat), e <> [] -> mem_N SP e = false ->
+    compile_content repaired repl (TEXT ++ [SP] ++ e) sym = Some (CContent repl false e sym).
+Proof. exact TALCompileFacts.content_text_keyword_repaired. Qed.
+Print Assumptions C17_text_keyword.
+
+(* DESIGN D13, the pinned compiler: tal:content="text foo" is compiled to the PATH "text foo" *)
+Theorem C17_text_keyword_refuted :
+  exists es p t m, compile pinned es = COk (p, (t, m)) /\
+                   In (CContent false false (lit "text foo"%string) 2%nat) p /\
+                   exists p', compile repaired es = COk (p', (t, m)) /\ In (CContent false false (lit "foo"%string) 2%nat) p'.
+Proof. exact TALCompileFacts.text_keyword_refuted. Qed.
+Print Assumptions C17_text_keyword_refuted.
+
+(* "every compiled program is structurally well formed": the full statement for the repaired compiler.
+   Proved below for event streams without TAL/METAL (C17_wf_program_partial); for the TAL part it is
+   checked per program: the real program equals the model's output (chk_compile) and satisfies
+   wf_program (chk_wf) for every generated template.  Missing for the full proof: the tag-stack
+   invariant of parse_start_tag / pop_tag_loop for elements that carry commands. *)
+(* Model/TALCompile.compile_wf_statement :=
+     forall es p t m, compile repaired es = COk (p, (t, m)) -> wf_program p t m = true. *)
+
+Theorem C17_wf_program_partial :
+  forall v es p t m, forallb tal_free_event es = true -> compile v es = COk (p, (t, m)) -> wf_program p t m = true.
+Proof. exact TALCompileFacts.wf_tal_free. Qed.
+Print Assumptions C17_wf_program_partial.
+
+(* the pinned compiler accepts a template whose last TAL element is never closed and returns a
+   program that is NOT well formed; the repaired one rejects the template *)
+Theorem C17_wf_program_refuted :
+  exists es, (exists p t m, compile pinned es = COk (p, (t, m)) /\ wf_program p t m = false) /\ compile repaired es = CErr.
+Proof. exact TALCompileFacts.wf_refuted. Qed.
+Print Assumptions C17_wf_program_refuted.
+
+(* ---- TALES (Model/TALESEval.v; tied to the real Context.evaluate by Corr/K17.chk_eval) ---- *)
+(* alternation: the value is that of the first alternative that exists *)
+Theorem C17_tales_alternation :
+  forall (val : Type) (ev : str -> result val) pre a post v,
+    (forall x, In x pre -> fst (ev (strip x)) = None) -> fst (ev (strip a)) = Some v ->
+    forall n, fst (first_found val ev (pre ++ a :: post) n) = Some v.
+Proof. exact TALESEvalFacts.first_found_picks. Qed.
+Print Assumptions C17_tales_alternation.
+
+Theorem C17_tales_alternation_none :
+  forall (val : Type) (ev : str -> result val) alts,
+    (forall x, In x alts -> fst (ev (strip x)) = None) -> forall n, fst (first_found val ev alts n) = None.
+Proof. exact TALESEvalFacts.first_found_none. Qed.
+Print Assumptions C17_tales_alternation_none.
+
+(* not: of a missing path is true; of a value it is the negation of its truth *)
+Theorem C17_tales_not :
+  forall (val : Type) (v_false v_true : val) (is_none is_default truthy : val -> bool) (ev : str -> result val) e,
+    (fst (ev e) = None -> fst (eval_not val v_false v_true is_none is_default truthy ev e) = Some v_true) /\
+    (forall v, fst (ev e) = Some v -> is_none v = false -> is_default v = false ->
+       fst (eval_not val v_false v_true is_none is_default truthy ev e) = Some (if truthy v then v_false else v_true)).
+Proof. exact TALESEvalFacts.not_law. Qed.
+Print Assumptions C17_tales_not.
+
+(* exists: / nocall: look the path up without calling its value *)
+Theorem C17_tales_exists_nocall :
+  forall (val : Type) (v_false v_true : val) (truthy : val -> bool) (traverse : str -> bool -> option val)
+         (ev : str -> result val) p, mem_N BAR p = false ->
+    fst (eval_exists val v_false v_true truthy traverse ev p) =
+      Some (match traverse p false with Some _ => v_true | None => v_false end) /\
+    fst (eval_nocall val traverse ev p) = traverse p false.
+Proof. exact TALESEvalFacts.exists_nocall_law. Qed.
+Print Assumptions C17_tales_exists_nocall.
+
+(* ---- compiler + interpreter against the specification ----
+   Full statement (C17_compiler_correct): for every element tree t and context c,
+     exists fuel, vm_run fuel (compile (events t)) c = Some (spec_eval t c)     (output text and final context).
+   Proved here only for the TAL/METAL-free fragment, where the specification of the expansion is the
+   serialisation of the event stream.  Missing for the rest: a Gallina model of the data side of the
+   interpreter (value universe, path traversal, the dynamic writers as a VM instance) and of the
+   tree-walking specification; the control and scope side is Model/TALVM.v (C18_context_restored), the
+   writers are Model/TALOut.v, the expression evaluator Model/TALESEval.v.  What stands in for the full
+   statement on every run is the differential oracle of harness/c17.py: real compiler + interpreter
+   against an independent tree-walking evaluator (harness/talref.py) on every generated template. *)
+Theorem C17_compiler_correct_partial :
+  forall v es p t m c, forallb tal_free_event es = true -> compile v es = COk (p, (t, m)) ->
+    exists mf, expand_static p t m 2 c = Done mf /\ dat str mf = passthrough_text v es /\ cx str mf = c.
+Proof. exact TALOutFacts.passthrough_expand. Qed.
+Print Assumptions C17_compiler_correct_partial.
